@@ -232,9 +232,12 @@ def compare_gr(ctx, rec, rc, out, tables):
     if rc != 0:
         return [("imc_solve:run:exit", "csg_imc_solve exit status %s: %s" % (rc, out[-300:]))]
     x = gr_solution(rec)
-    scale = max([abs(v) for v in x] + [1e-300])
-    # the real solver works in double precision: admissible error grows with cond(A^T A + r I) = 2^condlog2
+    # the real solver works in double precision: admissible relative error grows with cond(A^T A + r I) = 2^condlog2;
+    # where the exact solution (nearly) vanishes by cancellation, the rounding noise of A^T b (~1e-16 |b|) amplified by
+    # 1/(smallest eigenvalue + r) = 2^(condlog2 - log2(largest eigenvalue + r)) is admitted absolutely
     tol = 1e-7 + 4e-15 * 2.0 ** rec["condlog2"]
+    scale = max(abs(v) for v in x)
+    slack = 1e-14 * max([abs(v) for v in rec["b"]] + [1.0]) * 2.0 ** (rec["condlog2"] - max(0, -rec["t"]))
     bad = []
     for t in rec["tables"]:
         nm = tname(rec, t["name"])
@@ -252,7 +255,7 @@ def compare_gr(ctx, rec, rc, out, tables):
             if not vlib.close(gx, g / GRID, 1e-9, 1e-12):
                 bad.append(("imc_solve:split:grid", "%s.dpot.imc row %d: grid value %r, expected %r" % (nm, k + 1, gx, g / GRID)))
                 break
-            if not abs(y - x[pos - 1]) <= tol * scale:
+            if not abs(y - x[pos - 1]) <= tol * scale + slack:
                 bad.append(("imc_solve:solution:graded:" + gr_class(rec),
                             "%s.dpot.imc row %d: written %r, solution of (A^T A + r I) x = -A^T b is %.10g (|x|max %.3g, "
                             "singular values 2^-%s, r = 2^%d, cond 2^%d, tolerance %.1e)" % (
